@@ -46,8 +46,10 @@ R = {
  'C17-3': ('/tmp/seed_C15', 'all five points share one coordinate exactly (result and error bound both 0)', 'C17 quick: C17:insphere_adaptive:differs-from-exact:*:exact-zero', 'caught'),
 }
 R.update(json.load(open('/verif/tools/seed_results_extra.json')) if os.path.exists('/verif/tools/seed_results_extra.json') else {})
-for sid, (wt, needs, caught, first) in sorted(R.items()):
-    src = os.path.join(wt, 'out', sid)
+for sid, val in sorted(R.items()):
+    wt, needs, caught, first = val[:4]
+    # optional fifth element: name of the directory in the worktree (round 3 reuses C01-1.. names)
+    src = os.path.join(wt, 'out', val[4] if len(val) > 4 else sid)
     if not os.path.isdir(src):
         print('missing', src); continue
     d = '/verif/seeded/' + sid
@@ -62,11 +64,16 @@ for sid, (wt, needs, caught, first) in sorted(R.items()):
             if os.path.isfile(cand) and not os.path.exists(os.path.join(d, extra)):
                 shutil.copy(cand, d)
     pid = sid.split('-')[0]
+    pinned = {}
+    if os.path.exists('/verif/tools/seed_pinned.json'):
+        pinned = json.load(open('/verif/tools/seed_pinned.json'))
     meta = {"property": pid, "seed": sid, "what_it_needs_to_manifest": needs,
             "produced_by": "fresh sub-agent given only the property text and a scratch worktree of /repo (nothing from /verif)",
             "what_i_ran": ["tools/eval_seed.sh %s <worktree> patch.diff: pinned suite (55 tests) with the change in the worktree's own CMake build: 55/55 pass" % pid,
                            "./check with VERIF_REPO=<worktree with the change>: see caught_by",
                            "demonstration re-run by an independent sub-agent: see VERIFY.txt (when present)"],
             "caught_by": caught, "first_evaluation": first}
+    if sid in pinned:
+        meta["pinned_suite_rerun"] = pinned[sid]
     json.dump(meta, open(os.path.join(d, 'meta.json'), 'w'), indent=1)
 print(len(os.listdir('/verif/seeded')), 'seed directories')
